@@ -97,7 +97,7 @@ impl NormalFormQuery {
         // Sorting
         let mut sort_indices = None;
         for (plan, desc) in self.order_by.iter().rev() {
-            let (ranking, _) = query_plan::order_preserving(
+            let (ranking, ranking_type) = query_plan::order_preserving(
                 QueryPlan::compile_expr(
                     plan,
                     filter,
@@ -116,8 +116,10 @@ impl NormalFormQuery {
                 && !ranking.is_constant()
             {
                 let ranking = if ranking.is_nullable() {
-                    // TODO: not implemented for all types (e.g. NullableU8). Need to upcast to u64, add corresponding fused types, or add nullable top_n
-                    planner.fuse_nulls(ranking)
+                    // Fused representations exist only for NullableI64/NullableF64/NullableStr, so keys that are
+                    // still in an (order preserving) narrow encoding such as NullableU8 are decoded first.
+                    let decoded = ranking_type.codec.decode(ranking, &mut planner);
+                    planner.fuse_nulls(decoded)
                 } else {
                     ranking
                 };
